@@ -329,6 +329,30 @@ def apply_conds(it, p, cands, lemma=False):
     (p prime, p does not divide 16807, 1 <= s < p)."""
     for c, taken, inst in p.conds:
         cc = strip_casts(c)
+        if cc[0] == "icmp" and cc[3][0] != "c" and lemma:
+            # two computed values compared: decided on the difference of their exact linear forms
+            pred = cc[1] if taken else NEG[cc[1]]
+            try:
+                a_, b_ = it.ev(cc[2]), it.ev(cc[3])
+                d = lin_add(a_.lin, b_.lin, -1)
+                lo_ = hi_ = 0
+                for atom, coef in d.items():
+                    if atom == 1:
+                        lo_ += coef
+                        hi_ += coef
+                        continue
+                    al, ah = it.atoms[atom]
+                    lo_ += min(coef * al, coef * ah)
+                    hi_ += max(coef * al, coef * ah)
+                lo_, hi_ = it.bound(AbsVal(d, lo_, hi_))
+            except (Top, KeyError):
+                continue
+            # (machine comparison of the unwrapped values: both are within their width by M1 on this prefix)
+            if (pred in ("ult", "slt") and lo_ >= 0) or (pred in ("ule", "sle") and lo_ > 0) or \
+                    (pred in ("ugt", "sgt") and hi_ <= 0) or (pred in ("uge", "sge") and hi_ < 0) or \
+                    (pred == "eq" and (lo_ > 0 or hi_ < 0)) or (pred == "ne" and lo_ == hi_ == 0):
+                return False
+            continue
         if not (cc[0] == "icmp" and cc[3][0] == "c"):
             continue
         cst = cc[3][2]
